@@ -8,6 +8,7 @@ import (
 	"encoding/json"
 	"fmt"
 	"os"
+	"time"
 
 	sdb "github.com/alicebob/sqlittle/db"
 )
@@ -130,7 +131,16 @@ var callOps = map[string]func(callReq) (interface{}, error){
 		}
 		return map[string]interface{}{"vals": encVals(rec)}, nil
 	},
-	"sqlparse": func(r callReq) (interface{}, error) { return sqlParse(r.SQL), nil },
+	"sqlparse": func(r callReq) (interface{}, error) {
+		if r.Hex != "" { // arbitrary bytes (invalid UTF-8 cannot travel in a JSON string)
+			b, err := hex.DecodeString(r.Hex)
+			if err != nil {
+				return nil, err
+			}
+			return sqlParse(string(b)), nil
+		}
+		return sqlParse(r.SQL), nil
+	},
 	"header": func(r callReq) (interface{}, error) {
 		b, err := hex.DecodeString(r.Hex)
 		if err != nil {
@@ -143,6 +153,8 @@ var callOps = map[string]func(callReq) (interface{}, error){
 		return map[string]interface{}{"ok": true, "ps": ps, "cc": fmt.Sprint(cc), "sc": fmt.Sprint(sc)}, nil
 	},
 }
+
+var callDeadline = 4 * time.Second
 
 // harness calls <in.ndjson> <out.ndjson>
 func cmdCalls(args []string) int {
@@ -172,7 +184,20 @@ func cmdCalls(args []string) int {
 			fmt.Fprintln(os.Stderr, "bad request line", n, err)
 			return 2
 		}
-		if err := enc.Encode(doCall(r)); err != nil {
+		// a call that does not return (a parser that loops) must not take the machine down: a watchdog ends the process,
+		// the unfinished call is reported as a timeout and the caller restarts after it
+		done := make(chan callRes, 1)
+		go func(r callReq) { done <- doCall(r) }(r)
+		var cr callRes
+		select {
+		case cr = <-done:
+		case <-time.After(callDeadline):
+			enc.Encode(map[string]interface{}{"id": r.ID, "timeout": true})
+			w.Flush()
+			out.Close()
+			return 3
+		}
+		if err := enc.Encode(cr); err != nil {
 			fmt.Fprintln(os.Stderr, err)
 			return 2
 		}
